@@ -228,30 +228,33 @@ Arguments HOk {A} a.
 Arguments HErr {A} e.
 
 (* ---------- correspondence cases (values are N) ---------- *)
-(* what the harness reads off the real object after one call:
-   (node ids head.next .. tail, node ids tail.prev .. head, the dict as (key, node id) pairs) *)
-Definition hsnap := (list N * list N * list (N * N))%type.
-(* one object: (id, (key, value, prev, next)) *)
-Definition hobj := (N * (N * option N * option N * option N))%type.
-(* case = (maxsize, calls, outputs observed, snapshot observed after every call, all CacheNode objects
-   created during the run - sentinels and unreachable ones included - as they are at the end) *)
-Definition heap_case := (option Z * list (op N) * list (out N) * list hsnap * list hobj)%type.
+(* What the harness reads off the real object after one call, independent of object identities:
+     (key, value) of the nodes met walking `next` from head.next up to the tail sentinel,
+     keys of the nodes met walking `prev` from tail.prev up to the head sentinel,
+     for every key of the dict: the position in the forward walk of the node it maps to (None = not on the list). *)
+Definition hsnap := (list (N * N) * list N * list (N * option N))%type.
+(* case = (maxsize, calls, outputs observed, snapshot observed after every call) *)
+Definition heap_case := (option Z * list (op N) * list (out N) * list hsnap)%type.
 
-Definition dict_agrees (d : list (N * N)) (obs : list (N * N)) : bool :=
+Fixpoint index_of (i : N) (l : list N) (n : N) : option N :=
+  match l with
+  | [] => None
+  | x :: r => if N.eqb i x then Some n else index_of i r (N.succ n)
+  end.
+
+Definition dict_agrees (d : list (N * N)) (fwd : list N) (obs : list (N * option N)) : bool :=
   Nat.eqb (length d) (length obs) &&
-  forallb (fun e => option_eqb N.eqb (alookup (fst e) d) (Some (snd e))) obs.
+  forallb (fun e => match alookup (fst e) d with
+                    | Some i => option_eqb N.eqb (index_of i fwd 0%N) (snd e)
+                    | None => false
+                    end) obs.
 
 Definition snap_eqb (s : hstate N) (x : hsnap) : bool :=
   let '(f, b, d) := x in
-  list_eqb N.eqb (walk_fwd s) f && list_eqb N.eqb (walk_bwd s) b && dict_agrees (hdict s) d.
-
-Definition obj_eqb (h : list (N * node N)) (o : hobj) : bool :=
-  let '(i, (k, v, p, n)) := o in
-  match rd h i with
-  | Some x => N.eqb (nkey x) k && option_eqb N.eqb (nval x) v
-              && option_eqb N.eqb (nprev x) p && option_eqb N.eqb (nnext x) n
-  | None => false
-  end.
+  list_eqb (pair_eqb N.eqb N.eqb) (habs_items s) f
+  && list_eqb N.eqb (filter_map (fun i => option_map fst (kv (hheap s) i)) (walk_bwd s)) b
+  && Nat.eqb (length (walk_fwd s)) (length f) && Nat.eqb (length (walk_bwd s)) (length b)
+  && dict_agrees (hdict s) (walk_fwd s) d.
 
 Fixpoint heap_trace (s : hstate N) (ops : list (op N)) (outs : list (out N)) (snaps : list hsnap)
   : option (hstate N) :=
@@ -266,11 +269,10 @@ Fixpoint heap_trace (s : hstate N) (ops : list (op N)) (outs : list (out N)) (sn
   end.
 
 Definition check_heap (c : heap_case) : bool :=
-  let '(cp, ops, outs, snaps, objs) := c in
+  let '(cp, ops, outs, snaps) := c in
   match heap_trace (hinit cp) ops outs snaps with
   | Some s =>
-      Nat.eqb (length (hheap s)) (length objs) && forallb (obj_eqb (hheap s)) objs
       (* the abstraction of the pointer structure is the state of the list-level model *)
-      && list_eqb (pair_eqb N.eqb N.eqb) (habs_items s) (items (final (init cp) ops))
+      list_eqb (pair_eqb N.eqb N.eqb) (habs_items s) (items (final (init cp) ops))
   | None => false
   end.
